@@ -95,7 +95,7 @@ PROPS = {
         level="proof",
         required_theorems=["stream_independent_of_delivery", "chunkAll_eq_specChunks", "chunks_follow_rule", "chunks_tile",
                            "chunk_size_bounds", "rollsum_is_window_function", "buzhash_is_window_function"],
-        suites=dict(quick=[("l1", "c09")], thorough=[("l1", "c09")]),
+        suites=dict(quick=[("l1", "c09"), ("l1", "hash")], thorough=[("l1", "c09"), ("l1", "hash")]),
         rule="real Config::new_chunker on a scripted AsyncRead; compared: the (offset,length) list against the model run under the reads "
              "actually delivered (chunk) and against the pure rule (chunk-spec, the property's oracle); harness oracle: contiguity, bytes, "
              "coverage, min/max bounds; a case is distinct by its request line",
@@ -113,7 +113,7 @@ PROPS = {
         module="Bita.Props.C10",
         level="proof",
         required_theorems=["spec_resync", "fixed_resync", "resync"],
-        suites=dict(quick=[("l1", "c10")], thorough=[("l1", "c10")]),
+        suites=dict(quick=[("l1", "c10"), ("l1", "hash")], thorough=[("l1", "c10"), ("l1", "hash")]),
         rule="random (P1,P2,S) triples incl. empty prefixes and S starting with window non-zero bytes followed by >= window zeros; both "
              "streams chunked by the real chunker; oracle: identical continuation after the first common boundary >= window into S; "
              "both streams also compared with the model",
@@ -137,8 +137,9 @@ PROPS = {
         design_ref="DESIGN.md 5/C03",
         module="Bita.Props.C03",
         level="proof",
+        needs_bita=True,
         required_theorems=["planner_sound", "executor_sound", "inplace_exact", "inplace_clone_exact", "inplace_clone_succeeds", "clone_steps_as_modelled"],
-        suites=dict(quick=[("l1", "c03")], thorough=[("l1", "c03")]),
+        suites=dict(quick=[("l1", "c03"), ("py", "c13_writes"), ("py", "c02_seeds")], thorough=[("l1", "c03"), ("py", "c13_writes"), ("py", "c02_seeds")]),
         rule="(sizes, prior tiling O, target tiling N) triples: exhaustive small scope + random perturbations (rotate/swap/drop/insert/"
              "duplicate) up to 40 chunks over up to 24 ids; compared: strip statistics, the exact op list, the exact read/write log, the "
              "file after reordering and the remaining index; oracles: safePlan(implementation ops) and final bytes == source",
@@ -155,8 +156,9 @@ PROPS = {
         design_ref="DESIGN.md 5/C13",
         module="Bita.Props.C13",
         level="proof",
+        needs_bita=True,
         required_theorems=["write_log_exact", "write_log_exact_plain", "clone_write_log_exact", "clone_steps_as_modelled"],
-        suites=dict(quick=[("l1", "c03")], thorough=[("l1", "c03")]),
+        suites=dict(quick=[("l1", "c03"), ("py", "c13_writes")], thorough=[("l1", "c03"), ("py", "c13_writes")]),
         rule="as C03; the write log of the real CloneOutput on a logging in-memory file is compared entry by entry with the model's and "
              "judged by the C13 oracle (source chunk at its offset, once, not in place, within the source length)",
         trusted_base=LEAN_TB,
@@ -268,7 +270,7 @@ PROPS = {
         level="proof",
         needs_bita=True,
         required_theorems=["fetch_exact", "scan_starts_at_zero_fact", "clone_steps_as_modelled"],
-        suites=dict(quick=[("py", "c02_seeds"), ("l1", "c03")], thorough=[("py", "c02_seeds"), ("l1", "c03")]),
+        suites=dict(quick=[("py", "c02_seeds"), ("l1", "c03"), ("l1", "c07")], thorough=[("py", "c02_seeds"), ("l1", "c03"), ("l1", "c07")]),
         rule="as C02; compared: the exact list of fetched (offset,size) ranges beyond the header; oracles: no range twice, nothing fetched when "
              "a seed is the source or the output already holds it (regular file and block device)",
         trusted_base=LEAN_TB + ["strace"],
